@@ -101,6 +101,13 @@ open SpecModel.Cache.Side in
 theorem side_pkgVars_present : pkgVarsPresent SpecModel.Gen.pkgVars = true := by decide
 open SpecModel.Cache.Side in
 theorem side_pkgVars_stable : pkgVarsStable SpecModel.Gen.pkgVars = true := by decide
+/-- The package-level variables are exactly these (regenerated on every run): state kept in a NEW package-level
+variable - a memo, a pool, a table that is only ever mutated through its methods and never assigned, so that
+`side_pkgVars_stable` does not see it - has to be looked at before this list is changed. -/
+theorem side_pkgVars_exactly : SpecModel.Gen.pkgVars.map (·.1) =
+    ["Debug", "ErrDerefUnsupportedType", "ErrExpandUnsupportedType", "ErrResolveRefNeedsAPointer", "ErrSpec",
+     "ErrUnknownTypeForReference", "PathLoader", "assets", "jsFalse", "jsTrue", "onceCache", "resCache", "specLogger"] := by
+  decide
 open SpecModel.Cache.Side in
 theorem side_init_only_once : initOnlyOnce SpecModel.Gen.initCalls = true := by decide
 open SpecModel.Cache.Side in
